@@ -404,11 +404,32 @@ def streams(rng, tier):
                      "encoding fits into the room left then; a failed one leaves a strict prefix of its encoding; nothing beyond is touched; + model")
     s4.shrinkable = False
     out.append(s4)
+    # ---- every built-in Encode impl (the C01 corpus) into plain slices and cursors of every capacity up to the length and one beyond
+    from verifkit.props import C01
+    tops, tmops = C01.enc_ops(C01.corpus(rng, tier))
+    step = 3 if tier == "quick" else 1
+    kops = ["tsink" + o[4:] for o in tops[::step]]
+    def judge_tsink(op, impl, model, spec):
+        mw = model.split(" ")
+        if not impl.startswith("fits "):
+            return "ok" if impl.startswith("err ") and model.startswith("err ") else "violation"
+        mlen = 0 if mw[0] == "-" else len(mw[0]) // 2
+        return "ok" if int(impl.split(" ")[1]) == mlen else "corr"
+    s6 = Stream("builtin-impls-into-bounded-sinks", "hcore", kops, model_ops=tmops[::step], judge=judge_tsink, nontrivial=lambda op, impl: impl.startswith("fits"),
+                rule="tsink <type> <value>: every registered built-in type's Encode impl into &mut [u8] and Cursor<&mut [u8]> at every capacity 0..len+1 "
+                     "(all up to 48, then a sample): Ok exactly when it fits, otherwise a WRITE error, the accepted bytes a prefix, nothing beyond touched; "
+                     "the length is the model's")
+    s6.shrinkable = False
+    out.append(s6)
     return out
 
 
 def replay_streams(rp):
     op = rp.get("original_op") or rp["op"]
+    if op.startswith("tsink"):
+        s = Stream("replay", "hcore", [op], model_ops=[rp.get("model_op") or "nop"], judge=lambda o, i, m, sp: "ok" if i.startswith("fits ") else "violation")
+        s.shrinkable = False
+        return [s]
     j = judge_raw if op.startswith("sink ") else judge_script if op.startswith("encseq") else judge_enc
     s = Stream("replay", "hcore", [op], model_ops=[rp.get("model_op") or op], judge=j)
     s.shrinkable = False
